@@ -31,17 +31,25 @@ namespace occa {
     }
 
     hash_t device::kernelHash(const occa::json &props) const {
-      return (
-        occa::hash(props["compiler"])
-        ^ props["compiler_flags"]
-        ^ props["compiler_env_script"]
-        ^ props["compiler_vendor"]
-        ^ props["compiler_language"]
-        ^ props["compiler_linker_flags"]
-        ^ props["compiler_shared_flags"]
-        ^ props["include_occa"]
-        ^ props["link_occa"]
-      );
+      return kernelPropsHash(props, {
+        "compiler",
+        "compiler_flags",
+        "compiler_env_script",
+        "compiler_vendor",
+        "compiler_language",
+        "compiler_linker_flags",
+        "compiler_shared_flags",
+        "kernel/include_occa",
+        "kernel/link_occa",
+        // Settings that change the source generated from the OKL kernel
+        "mode",
+        "okl/enabled",
+        "okl/include_paths",
+        "okl/restrict",
+        "okl/strict_headers",
+        "okl/validate",
+        "serial/include_std"
+      });
     }
 
     //---[ Stream ]---------------------
